@@ -354,6 +354,55 @@ def rule_E(ck, units, floor=4):
                               f.decl(t)['n'], nm, f.where(n), partner))
 
 
+def rule_E2(ck, units):
+    """E2.row-width-covers-remote: a row of a distributed matrix is "empty" / "lonely" only if BOTH of its parts are: a condition that
+    classifies a row by the number of its entries in a local part (X_loc.ptr[i+1] - X_loc.ptr[i], directly or through a local) compared
+    with a constant also involves the width of the remote part of that row."""
+    import idioms
+    ck.rule('E2.row-width-covers-remote', 'mpi: a test of the form `<width of the local part of row i> == const` also takes the width of the remote part of the row into account '
+                                          '(an unknown whose only strong couplings are on other ranks is not lonely)', 1)
+    seen = set()
+    for u in units.values():
+        for f in u.funcs:
+            if f.body is None or not f.rel().startswith('amgcl/mpi') or (f.file, f.line) in seen:
+                continue
+
+            def width_part(e):
+                """'loc' / 'rem' when e is X.ptr[i+1] - X.ptr[i] of a *_loc / *_rem matrix"""
+                e = unwrap(e)
+                if e is None or e['k'] != 'bin' or e['op'] != '-':
+                    return None
+                x, y = unwrap(e['x']), unwrap(e['y'])
+                if x is None or y is None or x['k'] != 'idx' or y['k'] != 'idx' or show(x['b']) != show(y['b']) or not show(x['b']).endswith('ptr'):
+                    return None
+                base = show(x['b'])
+                return 'loc' if '_loc' in base else ('rem' if '_rem' in base else None)
+            k = 0
+            for n in f.nodes.values():
+                if n['k'] not in ('if', 'cond') or n.get('c') is None:
+                    continue
+                for c in walk(n['c']):
+                    if c['k'] != 'bin' or c['op'] not in ('==', '!=', '<', '<=', '>', '>='):
+                        continue
+                    sides = [(c['x'], c['y']), (c['y'], c['x'])]
+                    for a, b in sides:
+                        bu = unwrap(b)
+                        if bu is None or bu['k'] != 'lit':
+                            continue
+                        parts = set()
+                        for x in idioms.deep_nodes(f, a):
+                            w = width_part(x)
+                            if w:
+                                parts.add(w)
+                        if 'loc' in parts:
+                            k += 1
+                            ok = 'rem' in parts
+                            ck.ob('E2.row-width-covers-remote', '%s#%d' % ('::'.join(f.q.split('::')[-2:]), k), f.where(c), ok, '' if ok else
+                                  '`%s` at %s classifies the row by its local part only; its remote part may still hold entries' % (show(c)[:60], f.where(c)))
+            if k:
+                seen.add((f.file, f.line))
+
+
 def main(tier):
     ck = Check('C12', tier, 'C12 (clauses): all reductions of the distributed solve are global, and communicating loops terminate consistently on all ranks.')
     T = os.path.join(ir.VERIF, 'tus')
@@ -367,6 +416,7 @@ def main(tier):
     rule_C(ck, units)
     rule_D(ck, units)
     rule_E(ck, units)
+    rule_E2(ck, units)
     import c11
     import c14
     c14.rule_F(ck, T)          # run-time distributed relaxations are built from the operand their compile-time classes use (shared with C14)
